@@ -11,6 +11,7 @@ import Dirk.Model.Dkg
 import Dirk.Model.Lister
 import Dirk.Model.Transport
 import Dirk.Model.Handler
+import Dirk.Model.ShortRules
 import Dirk.Spec.Listing
 import Dirk.Spec.Lifecycle
 import Dirk.Model.ListerShape
@@ -319,7 +320,9 @@ def dstepCore (st : DState) (line : String) : DState × Option String :=
     | some c, some f, some its =>
       let c := if st.viaGrpc && c.isEmpty then "anonymous-empty" else c
       let sf := expandSignFails (its.map (fun it => it.2.signingRoot)) f.signFail
-      let (s', ps) := if st.viaGrpc then hSignAtts st.inst c its f.f sf else signAtts st.inst c its f.f sf
+      let (s', ps) := match f.short with
+        | some k => if st.viaGrpc then hSignAttsShort st.inst c its f.f sf k else signAttsShort st.inst c its f.f sf k
+        | none => if st.viaGrpc then hSignAtts st.inst c its f.f sf else signAtts st.inst c its f.f sf
       ({ st with inst := s', lastTrace := traceAtts st.inst c its f.f.lockStateFail ++ List.replicate (ps.filter (·.root.isSome)).length .sign }, some (manyStr ps))
     | _, _, _ => bad st line
   | ["atts0", c, _ip] =>
@@ -356,7 +359,9 @@ def dstepCore (st : DState) (line : String) : DState × Option String :=
       let c := if st.viaGrpc && c.isEmpty then "anonymous-empty" else c
       let ip := if st.viaGrpc then (if ip.startsWith "127." then ip else "127.0.0.1") else ip
       let sf := expandSignFails (its.map (fun it => it.2.signingRoot)) f.signFail
-      let (s', ps) := if st.viaGrpc then hMultisign st.inst c ip its sf f.f.lockStateFail else multisign st.inst c ip its sf f.f.lockStateFail
+      let (s', ps) := match f.short with
+        | some k => if st.viaGrpc then hMultisignShort st.inst c ip its sf f.f.lockStateFail k else multisignShort st.inst c ip its sf f.f.lockStateFail k
+        | none => if st.viaGrpc then hMultisign st.inst c ip its sf f.f.lockStateFail else multisign st.inst c ip its sf f.f.lockStateFail
       ({ st with inst := s', lastTrace := traceMsign st.inst c its f.f.lockStateFail ++ List.replicate (ps.filter (·.root.isSome)).length .sign }, some (manyStr ps))
     | _, _, _, _ => bad st line
   -- dkg engine
@@ -403,6 +408,26 @@ def dstepCore (st : DState) (line : String) : DState × Option String :=
       let _ := ini
       ({ st with cluster := c' }, some ((if r.1 then "ok" else "err") ++ " err"))
     | _, _, _, _, _ => bad st line
+  -- several generations for different names at the same moment (same wallet, all instances participate): each succeeds
+  -- or not exactly as it would alone
+  | "gensp" :: client :: t :: n :: specs =>
+    match unhexStr client, t.toNat?, n.toNat? with
+    | some client, some t, some n =>
+      let step := fun (acc : Dkg.Cluster × List String) (spec : String) =>
+        match spec.splitOn ":" with
+        | [ini, a] =>
+          match ini.toNat?, unhexStr a with
+          | some _ini, some acct =>
+            let c := acc.1
+            let exists_ := c.insts.any (fun x => x.accounts.contains acct)
+            let r := Dkg.generateOutcome c.insts.length n t (Dkg.distributedWallet acct) exists_ (client == "client1") .none
+            let c' := if r.2 && n == c.insts.length then { c with insts := c.insts.map (fun x => { x with accounts := acct :: x.accounts }) } else c
+            (c', acc.2 ++ [if r.1 then "ok" else "err"])
+          | _, _ => (acc.1, acc.2 ++ ["bad"])
+        | _ => (acc.1, acc.2 ++ ["bad"])
+      let r := specs.foldl step (st.cluster, [])
+      ({ st with cluster := r.1 }, some (" ".intercalate r.2))
+    | _, _, _ => bad st line
   | ["holds", acct] =>
     match unhexStr acct with
     | some acct =>
@@ -438,6 +463,15 @@ def dstepCore (st : DState) (line : String) : DState × Option String :=
       let (c, r) := Dkg.onExecute st.cluster i (callerId st.cluster caller) acct
       ({ st with cluster := c }, some r.toStr)
     | _, _, _ => bad st line
+  -- two Execute requests for one account overlapping in time; at most one of the two callers is a peer: the non-peer's is
+  -- refused without effect, the peer's is answered as if it were alone
+  | ["hexecute2", i, acct, callerA, callerB, _ms] =>
+    match i.toNat?, unhexStr acct, hs callerA, hs callerB with
+    | some i, some acct, some ca, some cb =>
+      let (c1, r1) := Dkg.onExecute st.cluster i (callerId st.cluster ca) acct
+      let (c2, r2) := Dkg.onExecute c1 i (callerId c1 cb) acct
+      ({ st with cluster := c2 }, some (r1.toStr ++ " " ++ r2.toStr))
+    | _, _, _, _ => bad st line
   | ["hcommit", i, caller, acct] =>
     match i.toNat?, hs caller, unhexStr acct with
     | some i, some caller, some acct =>
@@ -467,6 +501,17 @@ def dstepCore (st : DState) (line : String) : DState × Option String :=
         | none => ("", "")
       let base := clusterInst st.minsts i w a
       let (s', p) := signAtt base "client1" { name := acct } d {} false
+      ({ st with minsts := (i, s') :: st.minsts.filter (·.1 != i) }, some (posStr p))
+    | _, _, _ => bad st line
+  -- an attestation while that instance's store refuses writes (badger's ErrBlockedWrites): a store fault, nothing recorded
+  | ["iattb", i, acct, d] =>
+    match i.toNat?, unhexStr acct, parseAtt (d.splitOn ",") with
+    | some i, some acct, some d =>
+      let (w, a) := match walletAndAccount acct with
+        | some p => p
+        | none => ("", "")
+      let base := clusterInst st.minsts i w a
+      let (s', p) := signAtt base "client1" { name := acct } d { storeFail := true } false
       ({ st with minsts := (i, s') :: st.minsts.filter (·.1 != i) }, some (posStr p))
     | _, _, _ => bad st line
   -- an attestation whose write stalls while its client's deadline passes: for the model it is an ordinary request
@@ -634,6 +679,7 @@ def dstepCore (st : DState) (line : String) : DState × Option String :=
   | ["tracelog"] => (st, none)
   | ["lockwarm", _] => (st, none)
   | ["pruning"] => (st, none)
+  | ["store2", _] => (st, none)
   | ["pause", _] => (st, some "ok")
   -- a rules-level batch over synthetic keys (judged by the harness-side expectation, not by this model: "-")
   | ["rbatch", _, _, _, _, _] => (st, some "-")
